@@ -717,6 +717,27 @@ func (g *TxGen) make(t tx.TxType) *draft {
 		if st == nil {
 			return nil
 		}
+		if R.Intn(4) == 0 {
+			// prefer an owner that sits in the waitlist AND holds a stake of the same candidate and coin
+			e := g.exp()
+			pubByID := map[uint64]types.Pubkey{}
+			for _, c := range e.Candidates {
+				pubByID[c.ID] = c.PubKey
+			}
+			var tw []stakeRef
+			for _, w := range e.Waitlist {
+				if _, ok := g.signerFor(w.Owner); !ok {
+					continue
+				}
+				ref := stakeRef{pubByID[w.CandidateID], w.Owner, types.CoinID(w.Coin), BI(w.Value), true}
+				if _, _, ok := g.twinOf(&ref); ok {
+					tw = append(tw, ref)
+				}
+			}
+			if len(tw) > 0 {
+				st = &tw[R.Intn(len(tw))]
+			}
+		}
 		if kind != "invalid" {
 			if s, ok := g.signerFor(st.owner); ok {
 				d.sender = &s
@@ -725,6 +746,18 @@ func (g *TxGen) make(t tx.TxType) *draft {
 		v := g.amount(st.value, kind)
 		if kind == "valid" && R.Intn(3) == 0 {
 			v = new(big.Int).Set(st.value)
+		}
+		if w, sv, ok := g.twinOf(st); ok && R.Intn(2) == 0 {
+			// the owner holds a waitlist entry (w) AND a stake (sv) of this candidate and coin: values around the two and their sum
+			// (lead: added after seed C02-m3)
+			sum := new(big.Int).Add(w, sv)
+			mx := w
+			if sv.Cmp(mx) > 0 {
+				mx = sv
+			}
+			v = []*big.Int{new(big.Int).Add(w, big.NewInt(1)), new(big.Int).Add(sv, big.NewInt(1)), new(big.Int).Add(mx, big.NewInt(1)), sum,
+				new(big.Int).Sub(sum, big.NewInt(1)), new(big.Int).Add(sum, big.NewInt(1))}[R.Intn(6)]
+			d.note = "unbond-across-waitlist-and-stake"
 		}
 		if t == tx.TypeUnbond {
 			d.data = tx.UnbondDataV3{PubKey: st.pub, Coin: st.coin, Value: v}
@@ -1088,6 +1121,28 @@ func (g *TxGen) pickStake() *stakeRef {
 		return nil
 	}
 	return &out[g.R.Intn(len(out))]
+}
+
+// twinOf: does the owner of st hold both a waitlist entry and a stake of the same candidate and coin? Returns both values.
+func (g *TxGen) twinOf(st *stakeRef) (w, sv *big.Int, ok bool) {
+	e := g.exp()
+	var cid uint64
+	for _, c := range e.Candidates {
+		if c.PubKey == st.pub {
+			cid = c.ID
+			for _, s := range c.Stakes {
+				if s.Owner == st.owner && types.CoinID(s.Coin) == st.coin {
+					sv = BI(s.Value)
+				}
+			}
+		}
+	}
+	for _, x := range e.Waitlist {
+		if x.CandidateID == cid && x.Owner == st.owner && types.CoinID(x.Coin) == st.coin {
+			w = BI(x.Value)
+		}
+	}
+	return w, sv, w != nil && sv != nil && w.Sign() > 0 && sv.Sign() > 0
 }
 
 func (g *TxGen) commissionVote(pub types.Pubkey, height uint64, coin types.CoinID, mult int64) tx.VoteCommissionDataV3 {
